@@ -22,6 +22,8 @@ pub const RHS: &[&str] = &[
     "fun taking 1", "roll y", "roll 5", "5 at 0", "roll \"s\"", "0.1 plus 0.2, 0.3", "0.1 times 0.2, 0.3", "1e308 times 10, 0.1", "0.1 plus 0.1 times 0.1", "3 over 5", "5 over 3", "49 over 49", "7 over 10", "1 over 49 times 49", "0.1 times 3", "not not 5", "- - 5", "- not 5", "true", "null", "1 plus y", "\"a\" plus \"b\"", "not 1",
     // strings: a line break at the end, at the start, alone, doubled; blanks at either end; a tab; non-ASCII; look-alikes of other tokens
     "\"a\n\"", "\"\n\"", "\"\na\"", "\"a\n\nb\"", "\" a\"", "\"a \"", "\"a\tb\"", "\"é😀\"", "\"5\"", "\"says x\"", "\"it's\"", "\"true\"",
+    // long string literals (ASCII lengths around 64 / 128 / 256; multi-byte text at odd and even offsets)
+    "\"abcdefghi abcdefghi abcdefghi abcdefghi abcdefghi abcdefghi abc\"", "\"abcdefghi abcdefghi abcdefghi abcdefghi abcdefghi abcdefghi abcd\"", "\"abcdefghi abcdefghi abcdefghi abcdefghi abcdefghi abcdefghi abcde\"", "\"abcdefghi abcdefghi abcdefghi abcdefghi abcdefghi abcdefghi abcdefghi abcdefghi abcdefghi abcdefghi abcdefghi abcdefghi abcdefgh\"", "\"abcdefghi abcdefghi abcdefghi abcdefghi abcdefghi abcdefghi abcdefghi abcdefghi abcdefghi abcdefghi abcdefghi abcdefghi abcdefghi abcdefghi abcdefghi abcdefghi abcdefghi abcdefghi abcdefghi abcdefghi abcdefghi abcdefghi abcdefghi abcdefghi abcdefghi abcdefg\"", "\"aéééééééééééééééééééééééééééééééééééééééé\"", "\"éééééééééééééééééééééééééééééééééééééééééééééééééééééééééééééééééééééé\"", "\"ab😀😀😀😀😀😀😀😀😀😀😀😀😀😀😀😀😀😀😀😀😀😀😀😀😀😀😀😀😀😀😀😀😀😀😀😀😀😀😀😀😀😀😀😀😀😀😀😀😀😀😀😀😀😀😀😀😀😀😀😀😀😀😀😀😀😀😀😀😀😀\"",
 ];
 /// (prefix, suffix, final newline)
 pub const CONTEXTS: &[(&str, &str, bool)] = &[
@@ -38,6 +40,10 @@ pub const CONTEXTS: &[(&str, &str, bool)] = &[
     ("if c\nelse\n", "\nsay 9\n", true),
     ("while c\nif c\nelse\n", "\n\nsay 9\n", true),
     ("if c\nelse\nif c\nelse\n", "\n\nsay 9\n", true),
+    // every kind of block, nested in each other
+    ("until c\n", "\n", true),
+    ("until c\nwhile c\nuntil c\n", "\n\n\nsay 9\n", true),
+    ("if c\nuntil c\n", "\n\nsay 9\n", true),
 ];
 
 pub struct C18 {
